@@ -28,25 +28,30 @@ Sig == [ compose |-> <<(<<"C", "C">>), "C">>, quotient |-> <<(<<"C", "C">>), "C"
 Ops == DOMAIN Sig
 
 VARIABLES kinds,   \* kinds[i] : kind of pool member i ("C" / "L" / "S")
-          hist     \* sequence of [op, args, param]
-vars == <<kinds, hist>>
+          hist,    \* sequence of [op, args, param]
+          pend     \* the operation chosen for the next call ("none" between calls): choosing the operation
+                   \* first makes -simulate sample operations uniformly, not in proportion to their argument choices
+vars == <<kinds, hist, pend>>
 
-Init == kinds = [i \in 1..NSeed |-> IF i % 3 = 0 THEN "L" ELSE "C"] /\ hist = <<>>
+Init == kinds = [i \in 1..NSeed |-> IF i % 3 = 0 THEN "L" ELSE "C"] /\ hist = <<>> /\ pend = "none"
 
 ArgChoices(ks) ==   \* all index tuples into the pool with the required kinds
   IF Len(ks) = 0 THEN {<<>>}
   ELSE IF Len(ks) = 1 THEN {<<i>> : i \in {j \in DOMAIN kinds : kinds[j] = ks[1]}}
   ELSE {<<i, j>> : i \in {x \in DOMAIN kinds : kinds[x] = ks[1]}, j \in {y \in DOMAIN kinds : kinds[y] = ks[2]}}
 
+Choose(op) == pend = "none" /\ Len(hist) < MaxLen /\ ArgChoices(Sig[op][1]) # {} /\ pend' = op /\ UNCHANGED <<kinds, hist>>
 Call(op, args, p) ==
+  /\ pend = op /\ pend' = "none"
   /\ Len(hist) < MaxLen
   /\ hist' = Append(hist, [op |-> op, args |-> args, param |-> p])
   /\ kinds' = Append(kinds, Sig[op][2])     \* every call appends one pool slot (a failed call leaves it unusable)
 \* generator mode: at length EmitLen the only step is the sentinel "end", so that -simulate, which
 \* evaluates the constraint on every successor, prints each sampled history exactly once
-End == /\ Len(hist) = EmitLen
-       /\ hist' = Append(hist, [op |-> "end", args |-> <<>>, param |-> 0]) /\ UNCHANGED kinds
-Next == \/ Len(hist) < EmitLen /\ \E op \in Ops : \E args \in ArgChoices(Sig[op][1]) : \E p \in 0..(NParam - 1) : Call(op, args, p)
+End == /\ Len(hist) = EmitLen /\ pend = "none"
+       /\ hist' = Append(hist, [op |-> "end", args |-> <<>>, param |-> 0]) /\ UNCHANGED <<kinds, pend>>
+Next == \/ Len(hist) < EmitLen /\ \E op \in Ops : Choose(op)
+        \/ Len(hist) < EmitLen /\ \E op \in Ops : \E args \in ArgChoices(Sig[op][1]) : \E p \in 0..(NParam - 1) : Call(op, args, p)
         \/ End
 Spec == Init /\ [][Next]_vars
 
